@@ -185,7 +185,8 @@ fn main() {
     let thorough = args.thorough();
     let r = Runner::new(args);
     if prop == "C17" {
-        let mut firsts: Vec<Vec<usize>> = vec![vec![4], vec![2, 3], vec![3, 1, 2], vec![1], vec![0], vec![0, 3], vec![3, 0], vec![0, 0], vec![2, 0, 3]];
+        // the rank-0 shape [] (one element, dynamic dimensionality) is a non-empty input like any other
+        let mut firsts: Vec<Vec<usize>> = vec![vec![4], vec![2, 3], vec![3, 1, 2], vec![1], vec![], vec![0], vec![0, 3], vec![3, 0], vec![0, 0], vec![2, 0, 3]];
         if thorough {
             firsts.extend(vec![vec![7], vec![1, 1], vec![5, 2], vec![2, 2, 2, 2], vec![0, 1], vec![1, 0], vec![0, 2, 0], vec![2, 3, 0], vec![1, 2, 0, 2]]);
         }
